@@ -31,6 +31,26 @@ KcutClauses(c, kc) ==
     : j \in {x \in 1..Len(kc.cuts) : SetOf(kc.cuts[x]) # {kc.n}} }
   \cup (IF \E j \in 1..Len(kc.cuts) : SetOf(kc.cuts[j]) = {kc.n} THEN {} ELSE {"kcut_trivial_cut_missing" \o tag})
 
+
+\* Beyond the statement of C12 (reported as DRIFT, information only): Circuit.paths and the plain accessors.
+\* e.paths : sequence of [s, t, cutoff, ps (seq of seq of idx)];  e.acc : [nodes, io (seqs), edges (seq of <<u,v>>), len,
+\* is_out (seq of BOOLEAN per node), ft (seq of [types (seq of STRING), ns (seq of idx)])]
+PathClauses(c, q) ==
+  LET tag == "@" \o ToString(q.s) \o ">" \o ToString(q.t) \o "/" \o ToString(q.cutoff) IN
+  (IF SetOf(q.ps) = PathsWithin(c, q.s, q.t, q.cutoff) THEN {} ELSE {"DRIFT:paths" \o tag})
+  \cup (IF Cardinality(SetOf(q.ps)) = Len(q.ps) THEN {} ELSE {"DRIFT:paths_repeated" \o tag})
+AccessorClauses(c, a) ==
+  (IF SetOf(a.nodes) = 1..c.n /\ Len(a.nodes) = c.n THEN {} ELSE {"DRIFT:nodes()"})
+  \cup (IF SetOf(a.edges) = EdgeSet(c) /\ Len(a.edges) = Cardinality(EdgeSet(c)) THEN {} ELSE {"DRIFT:edges()"})
+  \cup (IF SetOf(a.io) = IoSet(c) THEN {} ELSE {"DRIFT:io()"})
+  \cup (IF a.len = c.n THEN {} ELSE {"DRIFT:len()"})
+  \cup (IF a.is_out = c.out THEN {} ELSE {"DRIFT:is_output()"})
+  \cup UNION {IF SetOf(a.ft[j].ns) = FilterType(c, SetOf(a.ft[j].types)) THEN {} ELSE {"DRIFT:filter_type@" \o ToString(a.ft[j].types)}
+              : j \in 1..Len(a.ft)}
+ExtraClauses(e) ==
+  (IF "paths" \in DOMAIN e THEN UNION {PathClauses(e.c, e.paths[j]) : j \in 1..Len(e.paths)} ELSE {})
+  \cup (IF "acc" \in DOMAIN e THEN AccessorClauses(e.c, e.acc) ELSE {})
+
 Judge_graph(e) ==
   IF e.exc # "" THEN {"query_raised:" \o e.exc} ELSE        \* no query may raise on these graphs (depth queries on cyclic graphs are recorded as -1)
   LET c == e.c
@@ -54,4 +74,5 @@ Judge_graph(e) ==
      \cup (LET lt == IF cyc THEN <<>> ELSE LongestTo(c)
                lf == IF cyc THEN <<>> ELSE LongestFrom(c)
            IN UNION {QueryClauses(c, cyc, lt, lf, e.q[j]) : j \in 1..Len(e.q)})
+     \cup ExtraClauses(e)
 =============================================================================
